@@ -90,6 +90,10 @@ func (i *streamIter) parseNext(r *logstorage.Record) (bool, error) {
 	if typ == systemerr {
 		return false, errors.Errorf("daemon log stream error: %q", &i.buf)
 	}
+	if typ > systemerr {
+		// Not a stream of the multiplexed format (or a corrupted header).
+		return false, errors.Errorf("unknown stream type %d", typ)
+	}
 
 	if err := parseDockerLine(typ, i.buf.String(), r); err != nil {
 		return false, errors.Wrap(err, "parse log line")
